@@ -471,8 +471,8 @@ def binding_selftest(rep):
         if not clause.startswith("drift_"):
             got.setdefault(tid, set()).add(clause)
     if 1 in got:
-        rep.machinery("binding self-test: the uncorrupted trace is rejected (%s) - the real code already "
-                      "fails on the T2 reference case; see the violations reported" % sorted(got[1]))
+        # the real code already fails on the reference case: that is reported by the main flow as a violation
+        rep.coverage["binding_selftest"] = "skipped: the uncorrupted reference trace is rejected (%s)" % sorted(got[1])
         return
     caught = 0
     for k, (clause, _) in enumerate(CORRUPTIONS):
